@@ -30,6 +30,10 @@ CLAIMED = {
             'TLA+ models PtyRead/FdRead/SockRead of read_nonblocking (one action per system call) x peer x process table checked by TLC in every interleaving; every single-call path of the TLC state graph replayed on the real transport by system-call interposition; recorded traces matched against the TLC state graph',
             'TLC proves prefix-in-order / EOF-only-when-drained / at-most-size / socket-timeout-restored for all interleavings in the bound; the same interleavings are forced on real pty children, pipes, pty and socket descriptors and socketpairs between the real system calls of the real code and the bytes compared',
             'real Linux kernel semantics observed, not modelled beyond readiness/short reads; units are single bytes; PopenSpawn see notes', '5 C06', 'transport'),
+    'C12': ('model_checking',
+            'TLA+ model Run (the run() loop over the contract ExpectAbs against scripted child programs) checked by TLC; the real run() executed with run.spawn rebound to a scripted dialogue child, traces validated by TLC against ExpectTrace (contract + run() clauses: output exactly once, one answer per occurrence, callbacks with the state dictionary)',
+            'TLC proves CollectedOnce / ReturnsWholeOutput / AnsweredOnce for every program, chunking and event table in the bound; about a thousand real run() executions (dict/list tables, string/function/method responses, EOF/TIMEOUT events, bytes/unicode) are judged event by event by TLC; real children for the exit status',
+            'dialogue child is scripted; virtual timeouts', '5 C12', 'run'),
     'C14': ('model_checking',
             'TLA+ model AsyncExpect (expect_async + PatternWaiter on an asyncio loop/transport model, over ExpectImpl) checked by TLC for every arrival schedule; histories mixing blocking and awaited calls run through the real expect_async on a virtual-time asyncio loop with a hand-fed transport, traces validated by TLC against the contract ExpectAbs (ExpectTrace)',
             'TLC proves conservation (also of what the caller is given), no lost result, TIMEOUT only without occurrence, genuine/leftmost/lowest index on the awaited path; real awaited executions are judged event by event against the same contract the blocking path is bound to (C01-C04), so parity is decided by TLC',
@@ -84,6 +88,8 @@ def main():
             {'name': 'async', 'path': 'spec/AsyncExpect.tla spec/ExpectTrace.tla harness/vloop.py harness/async_driver.py harness/checks/async_parity.py',
              'serves_properties': ['C14'],
              'kind_free_text': 'TLC model of the asyncio path + TLC trace validation of real awaited executions on a virtual event loop'},
+            {'name': 'run', 'path': 'spec/Run.tla spec/ExpectTrace.tla harness/checks/run_check.py', 'serves_properties': ['C12'],
+             'kind_free_text': 'TLC model of run() + TLC trace validation of real run() executions against scripted dialogue children'},
             {'name': 'patternforms', 'path': 'spec/PatternForms.tla harness/checks/c20.py', 'serves_properties': ['C20'],
              'kind_free_text': 'TLC-enumerated decision table, one implementation test per row'},
         ],
